@@ -263,10 +263,33 @@ def minimise(sim, text, viol, max_replays=400):
         tids = sorted(set(t for t, _ in runs[ri]["ops"]))
         if len(tids) > 1:
             folded = [dict(r) for r in runs]
-            folded[ri] = {"attrs": dict(runs[ri]["attrs"]), "ops": [(0, op) for _, op in runs[ri]["ops"]]}
+            folded[ri] = {"attrs": {k: v for k, v in runs[ri]["attrs"].items() if k != "trace"}, "ops": [(0, op) for _, op in runs[ri]["ops"]]}
+            folded[ri]["attrs"]["policy"] = "seq"
             budget[0] -= 1
             if budget[0] > 0 and ok(folded):
                 runs = folded
+            else:
+                # same, but in the order in which the operations were actually invoked
+                good_, info_ = shows(sim, render_script(runs), viol)
+                if good_:
+                    per_thread = {}
+                    for t, op in runs[ri]["ops"]:
+                        per_thread.setdefault(t, []).append(op)
+                    remap = {t: i for i, t in enumerate(sorted(per_thread))}
+                    inv = {i: t for t, i in remap.items()}
+                    order = [(e["tid"], e["op"]) for e in info_["res"]["evals"] if e["run"] == ri]
+                    seq_ops = []
+                    used = set()
+                    for tid, opi in order:
+                        t = inv.get(tid)
+                        if t is not None and opi < len(per_thread[t]) and (t, opi) not in used:
+                            used.add((t, opi))
+                            seq_ops.append((0, per_thread[t][opi]))
+                    if len(seq_ops) == len(runs[ri]["ops"]):
+                        folded[ri]["ops"] = seq_ops
+                        budget[0] -= 1
+                        if budget[0] > 0 and ok(folded):
+                            runs = folded
     # 5. default hash seed if it does not matter
     plain = [{"attrs": dict(r["attrs"], hash="0"), "ops": r["ops"]} for r in runs]
     budget[0] -= 1
@@ -585,14 +608,16 @@ def write_evidence(tier, seed, t0, explore, sweeps, hashres, det_ok, det_n, cros
     cov = {
         "evaluations": evaluations,
         "distinct_nontrivial": len(nontrivial) + sum(s["valid_months"] for s in sweeps[:1]),
-        "rule": "A case is one simulated run: a seeded multi-thread history of public-API queries, refusals and value-handle operations executed under one seeded schedule (generated by sim/src/gen.rs from VERIF_SEED, worker id and run index). It is non-trivial if at least one of its evaluations was compared (same key evaluated before in that process under another history/schedule, or LunarMonth::from_ym compared with the uncached LunarMonth::new). Distinct = distinct hash of (lock-event log, sequence of (query key, answer digest)). The whole-domain sweep adds one case per valid lunar month (each asked on the miss path and on the hit path and compared with LunarMonth::new), counted once however many sweeps ran.",
+        "rule": "A case is one simulated run: a seeded multi-thread history of public-API queries, refusals and value-handle operations executed under one seeded schedule (generated by sim/src/gen.rs from VERIF_SEED, worker id and run index). Every evaluation of every run is compared with the answer the same query gets right after a restart (memo and poison cleared, default hash seed) in that process. A run is counted as non-trivial if in addition at least one of its evaluations had a second in-process reference (same key evaluated before under another history/schedule, or LunarMonth::from_ym against the uncached LunarMonth::new). Distinct = distinct hash of (lock-event log, sequence of (query key, answer digest)). The whole-domain sweep adds one case per valid lunar month (each asked on the miss path and on the hit path and compared with LunarMonth::new), counted once however many sweeps ran.",
         "samples": samples,
         "obligations_checked": ["A agreement (same query, same answer anywhere)", "R from_ym == LunarMonth::new", "I isolation of refusals", "P bounded progress / no deadlock", "V value-memo transparency", "H hash-order independence"],
         "runs": runs,
-        "runs_per_hour": int(runs / sim_wall * 3600) if explore else 0,
+        "runs_per_hour": int(runs / max(wall, 0.001) * 3600) if explore else 0,
         "seeds": {"VERIF_SEED": seed, "workers": [d["worker"] for d in explore], "derivation": "run_seed = mix(mix(VERIF_SEED, worker+1), run_index) (SplitMix64), two streams per run: workload and schedule"},
         "simulated_time": {"value": 0, "reason": "tyme4rs has no clock, timer or deadline; logical time is the scheduler step counter", "scheduler_steps": tot("steps")},
-        "comparisons_within_process": tot("comparisons"),
+        "comparisons_against_cold_answer": tot("cold_comparisons"),
+        "cold_evaluations_one_per_distinct_key_per_process": tot("cold_evaluations"),
+        "comparisons_with_earlier_evaluations_in_process": tot("comparisons"),
         "refinement_checks_from_ym_vs_new": tot("r_checks") + sum(s["evaluations"] for s in sweeps),
         "value_handle_evaluations": tot("handle_evaluations"),
         "cross_process": {"pool_keys_seen_in_2plus_processes": cross_keys_multi, "comparisons": cross_compared, "processes": len(explore)},
